@@ -58,6 +58,17 @@ Definition derivative (n : nat) (band : list image) : option (list (nat -> F)) :
          | None => None
          end
   end.
+(* the force constants over a whole optimisation: Images.increment is called once per energy evaluation
+   (total_energy, original.py:116) with the image energies of that step *)
+Fixpoint increments (adaptive : bool) (min_k max_k : F) (ess : list (list F)) (ks : list F) : option (list F) :=
+  match ess with
+  | [] => Some ks
+  | es :: rest =>
+      match increment_ks F O adaptive min_k max_k es ks with
+      | Some ks' => increments adaptive min_k max_k rest ks'
+      | None => None
+      end
+  end.
 End Band.
 Arguments mkImage {F}. Arguments im_E {F}. Arguments im_k {F}. Arguments im_x {F}.
 Arguments im_g {F}. Arguments im_ci {F}.
